@@ -41,6 +41,40 @@ Proof. intros Ha. unfold depol_gate, mmul.
   rewrite (sumn_delta' n a (fun l => coef p a * HS l b) Ha).
   unfold coef, mix_hs. destruct (Nat.eqb_spec a 0) as [->|_]; ring. Qed.
 
+(* The SIDE of the composition matters.  [depol_gate] is D_p o G (hs_dp @ hs, noise AFTER the gate) and is the stated mixture
+   for EVERY HS matrix - no unitality / trace-preservation / symmetry hypothesis in [depol_gate_is_mixture].
+   The other side G o D_p (hs @ hs_dp) is entrywise  HS a b * coef p b : *)
+Lemma depol_gate_wrong_side_val n p HS a b : (b < n)%nat -> depol_gate_wrong_side F n p HS a b = HS a b * coef p b.
+Proof. intros Hb. unfold depol_gate_wrong_side, mmul.
+  rewrite (sumn_ext n _ (fun l => if Nat.eqb l b then HS a l * coef p l else 0)).
+  2:{ intros l _. rewrite depol_hs_row. destruct (Nat.eqb l b); ring. }
+  apply (sumn_delta n b (fun l => HS a l * coef p l) Hb). Qed.
+(* ... it coincides with the mixture when G is unital and trace preserving (every unitary gate): this is why named gates
+   cannot reveal a side mistake ... *)
+Theorem depol_gate_wrong_side_unital_tp n p HS a b : (a < n)%nat -> (b < n)%nat -> hs_tp F n HS -> hs_unital F n HS ->
+  depol_gate_wrong_side F n p HS a b = mix_hs F p HS a b.
+Proof. intros Ha Hb Htp Hun. rewrite depol_gate_wrong_side_val by exact Hb. unfold coef, mix_hs.
+  destruct (Nat.eqb_spec b 0) as [->|Hb0].
+  - assert (H00 : HS 0%nat 0%nat = 1) by (rewrite (Hun 0%nat) by lia; reflexivity).
+    rewrite (Hun a Ha). destruct (Nat.eqb a 0); rewrite ?H00; ring.
+  - destruct (Nat.eqb_spec a 0) as [->|Ha0]; [|ring]. rewrite (Htp b Hb).
+    destruct (Nat.eqb_spec b 0); [contradiction|]. ring. Qed.
+(* ... and it is NOT the mixture for a non-unital trace-preserving map: the replacement channel X -> tr(X) sigma on n = 2
+   coefficients (HS = [[1,0],[1,0]]), fully depolarised (p = 1): the wrong side returns G itself, the mixture is e_0 e_0^T *)
+Theorem depol_gate_wrong_side_refuted :
+  exists (n : nat) (p : F) (HS : rmat F) (a b : nat), hs_tp F n HS /\ 0 <= p /\ p <= 1 /\ (a < n)%nat /\ (b < n)%nat /\
+    depol_gate_wrong_side F n p HS a b <> mix_hs F p HS a b /\ depol_gate F n p HS a b = mix_hs F p HS a b.
+Proof. exists 2%nat, 1, (fun a b => if Nat.eqb b 0 then 1 else 0), 1%nat, 0%nat.
+  split; [|split; [|split; [|split; [|split; [|split]]]]].
+  - intros b Hb. destruct b as [|[|b]]; [reflexivity|reflexivity|lia].
+  - apply one_nonneg.
+  - apply k_refl.
+  - lia.
+  - lia.
+  - rewrite depol_gate_wrong_side_val by lia. unfold mix_hs, coef. cbn. intros E.
+    apply (F_1_neq_0 (k_field F)). etransitivity; [|etransitivity; [exact E|]]; ring.
+  - apply depol_gate_is_mixture. lia. Qed.
+
 (* p = 0 : nothing changes;  p = 1 : only the B_0 (trace) component survives *)
 Corollary depol_state_rate0 n v a : (a < n)%nat -> depol_state F n 0 v a = v a.
 Proof. intros Ha. rewrite depol_state_is_mixture by exact Ha. unfold mix_vec. ring. Qed.
